@@ -461,6 +461,12 @@ func c17Case(c *core.Ctx, idx int) {
 		_ = want
 		rec.Count("default_codecs_registered_again", 1)
 	}
+	// a field keeps the codec registered for its type whatever options the fields before it carry
+	if idx%5 == 2 {
+		if !afterInternCheck(c, r, instCfgs()[idx%4], cfgName(instCfgs()[idx%4]), c19Vocab(r), "scoping") {
+			return
+		}
+	}
 	// the package-level functions still behave like a default-configured instance
 	dt := reflect.StructOf([]reflect.StructField{sf("V", markedT, `plenc:"1"`), sf("N", markStrT, `plenc:"2"`), sf("S", reflect.SliceOf(tString), `plenc:"3"`), sf("T", model.TimeT, `plenc:"4"`), sf("T1", markedT, `plenc:"5,m1"`)})
 	dv := (&gen.VG{R: r, C: model.Cfg{}, Budget: 30}).Value(dt, "")
